@@ -35,6 +35,9 @@ import (
 	"go.opentelemetry.io/otel"
 )
 
+// beaconBlockRootRetentionSlots is the number of slots for which an unused beacon block root is kept.
+const beaconBlockRootRetentionSlots = 64
+
 // Service is a sync committee aggregator.
 type Service struct {
 	log                                  zerolog.Logger
@@ -136,6 +139,13 @@ func New(ctx context.Context, params ...Parameter) (*Service, error) {
 func (s *Service) SetBeaconBlockRoot(slot phase0.Slot, root phase0.Root) {
 	s.beaconBlockRootsMu.Lock()
 	s.beaconBlockRoots[slot] = root
+	// A root is only needed for the aggregation of its own slot, which takes it out again.
+	// Drop the roots of slots for which no aggregation took place, so that they do not accumulate.
+	for oldSlot := range s.beaconBlockRoots {
+		if oldSlot+beaconBlockRootRetentionSlots < slot {
+			delete(s.beaconBlockRoots, oldSlot)
+		}
+	}
 	s.beaconBlockRootsMu.Unlock()
 }
 
